@@ -4,7 +4,7 @@ SPEC = {
     "props": ["props/C12.vo"],
     "props_need_gen": ["props/C12.vo"],
     "gen_items": ["src/**:comparison, Hash and Borrow impl tables"],
-    "tieA_required": False,
+    "tieA_required": True,
     "case_libs": ["theories/CasesCmp.vo"],
     "drivers": [{"driver": "cmp", "profiles": ["debug"]}],
     "exhaustive": True,
